@@ -60,6 +60,11 @@ type c20Case struct {
 	// Burst: this many further connections are opened (half of them from an address that is refused at
 	// admission) and, with everything still open, all end at the same moment, from goroutines of their own
 	Burst int `json:"burst,omitempty"`
+	// Bystander: a second server lives in the process for the whole case, with this many connections (each
+	// with a session waiting) open on it from before the resting values are read until after the last
+	// comparison: the gauges are process-wide, what the server under test does must move them by its own
+	// share only
+	Bystander int `json:"bystander,omitempty"`
 }
 
 func genC20(t *rapid.T) c20Case {
@@ -78,6 +83,7 @@ func genC20(t *rapid.T) c20Case {
 		c.Conns = append(c.Conns, cc)
 	}
 	c.Burst = rapid.SampledFrom([]int{0, 0, 4, 8, 16, 24}).Draw(t, "burst")
+	c.Bystander = rapid.SampledFrom([]int{0, 0, 0, 1, 3}).Draw(t, "bystander_connections")
 	return c
 }
 
@@ -96,6 +102,30 @@ func runC20(t failer, c c20Case) (abandoned, rejected int) {
 	journal("C20", c)
 	fail := func(sig, format string, args ...interface{}) {
 		violation(t, "C20", "gauges", "C20:"+sig, c, format, args...)
+	}
+	if c.Bystander > 0 {
+		ev.Class("second-server-with-open-connections-in-the-process")
+		var bh tq.HandlerFunc
+		bh = func(resp tq.Response, req tq.Request) {
+			resp.Next(bh)
+			_, _ = resp.Reply(tq.NewAuthenReply(tq.SetAuthenReplyStatus(tq.AuthenStatusGetPass), tq.SetAuthenReplyServerMsg("m")))
+		}
+		by := startServer(nopLogger{}, staticSP{secret: []byte("b"), handler: bh})
+		for k := 0; k < c.Bystander; k++ {
+			bc, err := by.connect(&net.TCPAddr{IP: net.IPv4(10, 3, 0, byte(k+1)), Port: 7000 + k})
+			if err != nil {
+				t.Fatalf("%v", err)
+			}
+			bc.Feed(model.Frame([]byte("b"), model.Header{Version: 0xc0, Type: 1, Seq: 1, Session: uint32(900 + k)}, []byte{0, 0, 0, 0, 0}))
+			if !bc.AwaitQuiescentOrClosed(watchdog) {
+				t.Fatalf("HARNESS-BUG/INCONCLUSIVE: bystander connection wedged")
+			}
+		}
+		defer func() {
+			if e := by.stop(); e != nil {
+				t.Fatalf("%v", e)
+			}
+		}()
 	}
 	base, err := readGauges(c20Gauges)
 	if err != nil {
